@@ -43,8 +43,20 @@ func typeKey(t types.Type) string {
 	// universe aliases: byte = uint8, rune = int32 (also inside composite type strings)
 	s = byteRe.ReplaceAllString(s, "${1}uint8")
 	s = runeRe.ReplaceAllString(s, "${1}int32")
+	for _, e := range typeSubst {
+		s = e.re.ReplaceAllString(s, e.to)
+	}
 	return s
 }
+
+// typeSubst: type-parameter names replaced by the keys of their type arguments while the contract of a generic
+// callee is evaluated at an instantiated call site (set and reset by applyContract).
+type typeSubstEntry struct {
+	re *regexp.Regexp
+	to string
+}
+
+var typeSubst []typeSubstEntry
 
 var byteRe = regexp.MustCompile(`(^|[^\w./])byte\b`)
 var runeRe = regexp.MustCompile(`(^|[^\w./])rune\b`)
